@@ -19,6 +19,9 @@ CONFIGS = {
     "tm1":  ["-DCMAKE_BUILD_TYPE=RelWithDebInfo", "-DFOONATHAN_MEMORY_TEMPORARY_STACK_MODE=1"],
 }
 
+# configurations built by `vcheck setup` (the others are built on demand by the checks that use them)
+SETUP_CONFIGS = ["rel", "base", "dbg", "f16"]
+
 
 def source_hash():
     return sha_tree([os.path.join(REPO, "CMakeLists.txt"), os.path.join(REPO, "cmake"),
